@@ -20,8 +20,10 @@ Proof. induction l; constructor; auto. Qed.
 
 Lemma Sub_in {A} (s l : list A) x : Sub s l -> In x s -> In x l.
 Proof.
-  induction 1 as [|y l1 l2 H IH|y l1 l2 H IH]; intros Hin; cbn in *; try tauto.
-  destruct Hin; auto.
+  induction 1 as [|y l1 l2 H IH|y l1 l2 H IH]; intros Hin; cbn in *.
+  - contradiction.
+  - destruct Hin; auto.
+  - right; auto.
 Qed.
 
 Lemma Sub_trans {A} (a b c : list A) : Sub a b -> Sub b c -> Sub a c.
@@ -188,15 +190,14 @@ Definition glin (red : N -> N) : Prop :=
   (forall x, valid x -> valid (red x)).
 
 Lemma glin_0 red : glin red -> red 0 = 0.
-Proof. intros (Ha & _). specialize (Ha 0 0). rewrite N.lxor_0_r in Ha. apply (f_equal (N.lxor (red 0))) in Ha.
-  rewrite N.lxor_nilpotent, <- N.lxor_assoc, N.lxor_nilpotent, N.lxor_0_l in Ha. auto. Qed.
+Proof. intros (Ha & _). specialize (Ha 0 0). rewrite !N.lxor_nilpotent in Ha. exact Ha. Qed.
 
 Lemma lincomb_valid cs vs : Forall scal cs -> Forall valid vs -> valid (lincomb G cs vs).
 Proof.
   intros Hc. revert vs. induction Hc as [|c cs Hc1 Hc IH]; intros vs Hv; cbn [lincomb].
-  - apply gvalid_0.
-  - destruct Hv as [|v vs Hv1 Hv]; [apply gvalid_0|].
-    apply gvalid_xor; [apply smul_valid; auto | apply IH; auto].
+  - apply (gvalid_0 G Hlaws).
+  - destruct Hv as [|v vs Hv1 Hv]; [apply (gvalid_0 G Hlaws)|].
+    apply gvalid_xor; [apply (smul_valid G Hlaws); auto | apply IH; auto].
 Qed.
 
 Lemma lincomb_map red cs vs : glin red -> Forall scal cs -> Forall valid vs ->
@@ -211,7 +212,7 @@ Qed.
 Lemma lincomb_app cs1 cs2 vs1 vs2 : length cs1 = length vs1 ->
   lincomb G (cs1 ++ cs2) (vs1 ++ vs2) = N.lxor (lincomb G cs1 vs1) (lincomb G cs2 vs2).
 Proof.
-  revert vs1. induction cs1 as [|c cs1 IH]; intros [|v vs1] Hl; try discriminate; cbn [app lincomb].
+  revert vs1. induction cs1 as [|c cs1 IH]; intros [|v vs1] Hl; cbn [length] in Hl; try (exfalso; lia); cbn [app lincomb].
   - rewrite N.lxor_0_l. reflexivity.
   - rewrite IH by (cbn in Hl; lia). rewrite N.lxor_assoc. reflexivity.
 Qed.
@@ -287,13 +288,13 @@ Proof.
     destruct Hg as (Ga & Gh & Gv).
     unfold short in Hshort.
     destruct ys as [|y1 [|y2 [|? ?]]]; cbn [length] in *; try lia.
-    + destruct cy as [|c1 [|? ?]]; try discriminate. cbn [map lincomb]. rewrite N.lxor_0_r.
+    + destruct cy as [|c1 [|? ?]]; try (exfalso; cbn [length] in Hlcy; lia). cbn [map lincomb]. rewrite N.lxor_0_r.
       inversion Hcy as [|? ? [Hc1 Hc1n] _]; subst. inversion Hys as [|? ? Hy1 _]; subst.
       intros E. apply (smul_eq_0 G Hlaws) in E; auto.
       apply Hnz. apply in_map_iff. exists y1. split.
       * rewrite E. apply (norm_0 G).
       * eapply Sub_in; [exact Hsub | left; reflexivity].
-    + destruct cy as [|c1 [|c2 [|? ?]]]; try discriminate. cbn [map lincomb]. rewrite N.lxor_0_r.
+    + destruct cy as [|c1 [|c2 [|? ?]]]; try (exfalso; cbn [length] in Hlcy; lia). cbn [map lincomb]. rewrite N.lxor_0_r.
       inversion Hcy as [|? ? Hc1 Hcy2]; subst. inversion Hcy2 as [|? ? Hc2 _]; subst.
       inversion Hys as [|? ? Hy1 Hys2]; subst. inversion Hys2 as [|? ? Hy2 _]; subst.
       intros E. apply comb2_norm in E; auto.
@@ -324,20 +325,20 @@ Qed.
 Lemma split_len {A} (l : list A) d : (d <= length l)%nat -> exists xs ys, l = xs ++ ys /\ length xs = d.
 Proof. intros H. exists (firstn d l), (skipn d l). split; [symmetry; apply firstn_skipn | apply firstn_length_le; exact H]. Qed.
 
-Lemma head_indep x0 rest w0 p0 d :
+Lemma head_indep x0 rest w0 p0 d : (d <= 2)%nat ->
   valid x0 -> Forall valid rest -> pivot G x0 = Some (w0, p0) ->
   chk G 0 (map (elim G w0 p0) rest) = true ->
   chk G d (map (elim G w0 p0) rest) = true ->
   forall sub cs a0, Sub sub rest -> length cs = length sub -> (length sub <= d + 2)%nat ->
     nzscal a0 -> Forall nzscal cs -> N.lxor (sm a0 x0) (lincomb G cs sub) <> 0.
 Proof.
-  intros Hx0 Hrest Hpiv H0 Hd sub cs a0 Hsub Hlen Hw Ha0 Hcs.
+  intros Hd3 Hx0 Hrest Hpiv H0 Hd sub cs a0 Hsub Hlen Hw Ha0 Hcs.
   destruct (pivot_kills x0 w0 p0 Hx0 Hpiv) as (Hw0 & Hp0 & Hkill).
   pose proof (elim_glin w0 p0 Hw0 Hp0) as Hel.
   assert (Hcs' : Forall scal cs) by (eapply Forall_impl; [|exact Hcs]; intros a [Ha _]; exact Ha).
   destruct sub as [|y1 sub1].
   - (* weight 1 *)
-    destruct cs; [|discriminate]. cbn [lincomb]. rewrite N.lxor_0_r.
+    destruct cs; [|cbn [length] in Hlen; lia]. cbn [lincomb]. rewrite N.lxor_0_r.
     intros E. apply (smul_eq_0 G Hlaws) in E; [|apply Ha0|apply Ha0|exact Hx0].
     subst x0. unfold pivot in Hpiv. rewrite toplane_0 in Hpiv. discriminate.
   - intros E. apply (f_equal (elim G w0 p0)) in E.
@@ -347,16 +348,13 @@ Proof.
     rewrite E0 in E. revert E.
     destruct (Nat.le_gt_cases (length (y1 :: sub1)) 2) as [Hle|Hgt].
     + (* one or two further vectors: the depth-0 check *)
+      assert (Hsh : short (y1 :: sub1)) by (unfold short; cbn [length] in *; lia).
       pose proof (chk_sound 0 (elim G w0 p0) rest (conj Ea (conj Eh Ev)) Hrest H0
-                    [] (y1 :: sub1) [] cs Hsub eq_refl eq_refl) as HH.
-      cbn [lincomb] in HH. rewrite N.lxor_0_l in HH. apply HH; auto.
-      * unfold short. cbn [length] in *. lia.
-      * constructor.
+                    [] (y1 :: sub1) [] cs Hsub eq_refl eq_refl Hsh Hlen (Forall_nil _) Hcs) as HH.
+      cbn [lincomb] in HH. rewrite N.lxor_0_l in HH. exact HH.
     + (* d+1 or d+2 further vectors *)
       assert (Hdl : (d <= length (y1 :: sub1))%nat).
-      { destruct (Nat.le_gt_cases d (length (y1 :: sub1))); [assumption|].
-        (* fewer than d vectors but more than 2: pad is impossible, so use a smaller split *)
-        exfalso. lia. }
+      { lia. }
       destruct (split_len (y1 :: sub1) d Hdl) as (xs & ys & Exy & Hlx).
       assert (Hlc : (d <= length cs)%nat) by lia.
       destruct (split_len cs d Hlc) as (cx & cy & Ecxy & Hlcx).
